@@ -10,6 +10,8 @@ package main
 //                   results, argument = the variable given to (or returned by) the test, not assigned since
 //       REFUTED     a file-system call before the test, or its argument wrapped in / reassigned from a
 //                   function that rewrites strings (os.ExpandEnv, strings.*, url.*Unescape, …)
+//                   or the boolean result of the test used with the wrong polarity (error branch when it is true,
+//                   open when it is false)
 //       unknown     anything else (a call that cannot be classified, an argument that is another expression)
 // (B) interpreter: the Resolve call(s) reachable from importRuntime.Eval: is the receiver the provider's
 //     configured locator (rt.erp.ImportLocator, possibly through a local), and is the argument
@@ -336,6 +338,149 @@ func c17OpenFacts(root string) ([]c17OpenFact, error) {
 				facts = append(facts, c17OpenFact{site, text, c17Unknown, "the argument is not the tested variable: " + c17Text(p.fset, arg)})
 			}
 		}
+	}
+	// polarity of the test's boolean result: an error branch must be taken when it is FALSE, an open when it is TRUE
+	isFS := func(fd *ast.FuncDecl, ce *ast.CallExpr) bool {
+		q := qual(fd, ce)
+		i := strings.LastIndex(q, ".")
+		if i < 0 || strings.Contains(q, ":") {
+			return false
+		}
+		ip, fn := q[:i], q[i+1:]
+		return c17FSPackages[ip] && !(ip == "os" && c17OSPure[fn]) || ip == "path/filepath" && c17FilepathFS[fn]
+	}
+	containsFS := func(fd *ast.FuncDecl, n ast.Node) bool {
+		r := false
+		ast.Inspect(n, func(m ast.Node) bool {
+			if ce, ok := m.(*ast.CallExpr); ok && isFS(fd, ce) {
+				r = true
+			}
+			return !r
+		})
+		return r
+	}
+	errorish := func(fd *ast.FuncDecl, n ast.Node) bool {
+		r := false
+		ast.Inspect(n, func(m ast.Node) bool {
+			if ce, ok := m.(*ast.CallExpr); ok {
+				if q := qual(fd, ce); q == "fmt.Errorf" || q == "errors.New" {
+					r = true
+				}
+			}
+			return !r
+		})
+		return r
+	}
+	var polarity func(e ast.Expr, b string, neg bool) int // 0 not mentioned, +1 plain, -1 negated, 2 both
+	polarity = func(e ast.Expr, b string, neg bool) int {
+		merge := func(x, y int) int {
+			switch {
+			case x == 0:
+				return y
+			case y == 0 || x == y:
+				return x
+			}
+			return 2
+		}
+		switch x := unparen(e).(type) {
+		case *ast.Ident:
+			if x.Name == b {
+				if neg {
+					return -1
+				}
+				return 1
+			}
+		case *ast.UnaryExpr:
+			if x.Op == token.NOT {
+				return polarity(x.X, b, !neg)
+			}
+		case *ast.BinaryExpr:
+			if x.Op == token.LAND || x.Op == token.LOR {
+				return merge(polarity(x.X, b, neg), polarity(x.Y, b, neg))
+			}
+			if x.Op == token.EQL || x.Op == token.NEQ {
+				for _, pr := range [][2]ast.Expr{{x.X, x.Y}, {x.Y, x.X}} {
+					if id, ok := unparen(pr[0]).(*ast.Ident); ok && id.Name == b {
+						if lit, ok := unparen(pr[1]).(*ast.Ident); ok && (lit.Name == "true" || lit.Name == "false") {
+							flip := (lit.Name == "false") != (x.Op == token.NEQ)
+							return polarity(id, b, neg != flip)
+						}
+					}
+				}
+			}
+		}
+		return 0
+	}
+	polFns := append([]*ast.FuncDecl{}, reach...)
+	for _, fd := range polFns {
+		site := "util:" + funcName(p.name, fd)
+		ast.Inspect(fd.Body, func(n ast.Node) bool {
+			as, ok := n.(*ast.AssignStmt)
+			if !ok || len(as.Rhs) != 1 || len(as.Lhs) < 2 {
+				return true
+			}
+			call, ok := unparen(as.Rhs[0]).(*ast.CallExpr)
+			if !ok {
+				return true
+			}
+			q := qual(fd, call)
+			if !strings.HasPrefix(q, "same:") || !testFns[q[5:]] {
+				return true
+			}
+			bid, ok := as.Lhs[0].(*ast.Ident)
+			if !ok || bid.Name == "_" {
+				return true
+			}
+			// only a boolean first result has a polarity (a helper returning the tested path has none)
+			isBool := false
+			for _, cand := range c.funcs[q[5:]] {
+				if cand.Type.Results != nil && len(cand.Type.Results.List) > 0 {
+					if id, ok := cand.Type.Results.List[0].Type.(*ast.Ident); ok && id.Name == "bool" {
+						isBool = true
+					}
+				}
+			}
+			if !isBool {
+				return true
+			}
+			b := bid.Name
+			judge := func(cond ast.Expr, body ast.Node, els ast.Node) {
+				switch polarity(cond, b, false) {
+				case 1:
+					if errorish(fd, body) && !containsFS(fd, body) {
+						facts = append(facts, c17OpenFact{site, c17Text(p.fset, cond), c17Refuted, "the error branch is taken when the containment test ACCEPTS (" + b + " is true)"})
+					}
+					if els != nil && containsFS(fd, els) {
+						facts = append(facts, c17OpenFact{site, c17Text(p.fset, cond), c17Refuted, "the file is opened in the branch where the containment test REJECTS"})
+					}
+				case -1:
+					if containsFS(fd, body) {
+						facts = append(facts, c17OpenFact{site, c17Text(p.fset, cond), c17Refuted, "the file is opened when the containment test REJECTS (" + b + " is false)"})
+					}
+				}
+			}
+			ast.Inspect(fd.Body, func(m ast.Node) bool {
+				switch st := m.(type) {
+				case *ast.IfStmt:
+					var els ast.Node
+					if st.Else != nil {
+						els = st.Else
+					}
+					judge(st.Cond, st.Body, els)
+				case *ast.SwitchStmt:
+					if st.Tag == nil {
+						for _, cc := range st.Body.List {
+							cl := cc.(*ast.CaseClause)
+							for _, e := range cl.List {
+								judge(e, &ast.BlockStmt{List: cl.Body}, nil)
+							}
+						}
+					}
+				}
+				return true
+			})
+			return true
+		})
 	}
 	hasOpen := false
 	for _, f := range facts {
